@@ -192,3 +192,94 @@ def run_texts(texts):
     impl = run_lines([FRONT], reqs)
     model = run_driver(reqs)
     return list(zip(impl, model))
+
+
+# ------------------------------------------------------------------ corpora
+
+def corpus_supported(n, rng, modes=("plain", "light", "wild"), variants=1, opts=None):
+    """n declaration models; each printed `variants` times under random layouts and declaration orders.
+    Returns list of dicts {text, items, group, mode, meta}."""
+    out = []
+    for gi in range(n):
+        g = specgen.Gen(rng)
+        items, meta = g.supported(opts=opts)
+        for v in range(variants):
+            mode = modes[(gi + v) % len(modes)] if v else "plain"
+            order = items if v == 0 else rng.shuffle(items)
+            out.append({"text": specgen.render(order, specgen.Layout(rng, mode)), "items": items, "group": gi,
+                        "mode": mode, "meta": meta, "kind": "supported", "perm": v != 0})
+    return out
+
+
+def corpus_out_of_subset(n, rng):
+    out = []
+    for _ in range(n):
+        g = specgen.Gen(rng)
+        items, tag = specgen.out_of_subset(g, rng)
+        out.append({"text": specgen.render(rng.shuffle(items), specgen.Layout(rng, rng.choice(["plain", "light"]))),
+                    "items": items, "kind": "out-of-subset", "tag": tag})
+    return out
+
+
+def corpus_mutations(n, rng, bases):
+    out = []
+    for _ in range(n):
+        t = rng.choice(bases)
+        for _ in range(1 + rng.below(2)):
+            t = specgen.mutate_text(t, rng)
+        out.append({"text": t, "items": None, "kind": "mutation"})
+    return out
+
+
+def graph_spec(nodes, rng=None):
+    """nodes: list of (kind, own_opaque, refs) with kind in struct/union/typedef; names g0..; refs are indices
+    (or -1 for an undeclared name).  Edge kinds are drawn from rng (or plain when rng is None)."""
+    items = []
+    name = lambda i: "g%d" % i if i >= 0 else "undeclared"
+    for i, (kind, own, refs) in enumerate(nodes):
+        if kind == "typedef":
+            ty = "opaque" if own else (name(refs[0]) if refs else "int")
+            arr = None
+            if rng and not own and refs and ty != name(i):
+                arr = rng.choice([None, ["fixed", "2"], ["var", ""], ["var", "3"]])
+            items.append({"k": "typedef", "ty": ty, "name": name(i), "arr": arr})
+        elif kind == "struct":
+            fs = []
+            if own:
+                fs.append({"ty": "opaque", "name": "o", "arr": (rng.choice([None, ["var", ""], ["fixed", "4"]]) if rng else ["var", ""]), "opt": False})
+            for j, r in enumerate(refs):
+                c = rng.below(4) if rng else 0
+                fs.append({"ty": name(r), "name": "f%d" % j, "arr": [None, ["fixed", "2"], ["var", ""], None][c], "opt": c == 3})
+            if not fs:
+                fs.append({"ty": "int", "name": "x", "arr": None, "opt": False})
+            items.append({"k": "struct", "name": name(i), "fields": fs})
+        else:
+            arms = []
+            lab = 0
+            bodies = ([{"ty": "opaque", "name": "o", "arr": None}] if own else []) + [{"ty": name(r), "name": "a%d" % j, "arr": None} for j, r in enumerate(refs)]
+            for j, b in enumerate(bodies):
+                if rng and j == len(bodies) - 1 and rng.chance(1, 3):
+                    arms.append({"default": True, "labels": [], "body": b})
+                else:
+                    arms.append({"labels": [str(lab)], "body": b})
+                    lab += 1
+            if not arms:
+                arms.append({"labels": ["0"], "body": "void"})
+            items.append({"k": "union", "name": name(i), "swty": "int", "swvar": "d", "arms": arms})
+    return items
+
+
+def all_graphs(k, with_undeclared=False):
+    """every dependency graph over k declarations: kind x own-opaque x reference set (typedefs have one target)"""
+    import itertools
+    targets = list(range(k)) + ([-1] if with_undeclared else [])
+    per = []
+    for kind in ("struct", "union"):
+        for own in (False, True):
+            for m in range(1 << len(targets)):
+                per.append((kind, own, [targets[b] for b in range(len(targets)) if m >> b & 1]))
+    per.append(("typedef", True, []))
+    per.append(("typedef", False, []))
+    for t in targets:
+        per.append(("typedef", False, [t]))
+    return itertools.product(per, repeat=k)
